@@ -28,6 +28,19 @@ def _final(doc: str, ops: list[dict], mode: str):
 
 def generate(seed: int, tier: str) -> dict:
     st = Streams(seed)
+    if st("kind").random() < 0.12:
+        # idempotence where the addressed attribute holds a *reference* (scoping programs of C10/C11): the second
+        # application finds the definition already equal to VALUE and must leave everything as it is
+        from . import scopegen
+
+        rng = st("law")
+        g = scopegen.ScopeGen(st("doc"), seed % 800 + 100, max_wrappers=rng.choice([0, 1, 2, 3]), cycles=False)
+        prog = g.program()
+        probe = rng.choice(prog["probes"])
+        tag = (seed % 800 + 100) * 1000 + 950
+        value = rng.choice([str(tag), '"v%d"' % tag, "[ %d ]" % tag, "{ k = %d; }" % tag, "[\n  %d\n  %d\n]" % (tag, tag + 1)])
+        return {"prop": "C19", "engine": "laws", "seed": seed, "tier": tier, "doc": prog["text"], "law": "L1",
+                "ops": [{"op": "set", "path": ".".join(probe), "value": value}], "reference_doc": True}
     cfg = gen.swarm(st("swarm"), tier, profile="scope" if st("swarm").random() < 0.4 else "edit")
     cfg["perturb"] = False
     cfg["trailing_blank"] = False  # the laws speak about canonically formatted documents
